@@ -15,7 +15,10 @@ CFG = dict(
          "(local node last / local subnet moves / peer moves / local node deleted / local IPv4 appears or disappears / affinity "
          "moves with borrowed address / local workload before or after the remote block / pool mode flips), half of them with a "
          "random tail; 1 universe in 6 has overlapping pool and nested block keys (outside the datastore's invariants: model "
-         "must agree, oracle is vacuous).  The emitted RouteUpdate/RouteRemove stream is accumulated and also handed to the "
+         "must agree, oracle is vacuous).  DUAL STACK: pools, blocks and workload addresses of an IPv6 family (inside one /96, "
+         "IPv6 pools without IPIP), nodes with an IPv4 and/or IPv6 address+subnet, 4 dual-stack scripted shapes (local node arriving "
+         "last / renumbered / deleted and back on both families, IPv6 subnet only); the IPv6 VXLAN and no-encap managers run too and "
+         "both families' route sets and kernel routes are compared and judged by the oracle.  The emitted RouteUpdate/RouteRemove stream is accumulated and also handed to the "
          "REAL vxlan/ipip/noencap managers (routeManager) with a recording route table; host metadata / VTEPs for the nodes "
          "that have an address in the final state arrive before or after the history; CompleteDeferredWork at random points. "
          "non-trivial = the final route set has a remote-workload route of a pool with an encapsulation type and the history "
@@ -27,7 +30,7 @@ CFG = dict(
              "LookupPath = stored prefixes covering the query, shortest first)",
              "Go driver harness/C43/cmd/main.go and the add-only shim harness/C43/shims/felix/dataplane/linux/zz_verif_c43.go "
              "(overlay build, tag verif)"],
-    assumptions=["IPv4 side only; nodes carry no IPIP/VXLAN/Wireguard tunnel addresses; routeSource CalicoIPAM (only local workload "
+    assumptions=["both IP families (IPv6 inside one /96, represented by the last 32 bits); nodes carry no IPIP/VXLAN/Wireguard tunnel addresses; routeSource CalicoIPAM (only local workload "
                  "endpoints reach the resolver); NAT-outgoing constant",
                  "the route managers know their parent device; host metadata / VTEPs exist exactly for the nodes that have an IPv4 "
                  "address in the final state (what VXLANResolver / the host-metadata path deliver)",
@@ -50,7 +53,7 @@ MANIFEST = dict(
          "its owner exactly when the pool is unencapsulated or cross-subnet with the owner in the local subnet, otherwise the "
          "pool's tunnel route; local non-/32 blocks are blackholed and a blackhole is never a local workload's own address; the "
          "managers' pending maps are a function of the route set for every message stream; flush() is independent of the dirty "
-         "set's iteration order; c43_order_independent: after ANY history of pool, block, node and workload updates (block keys "
+         "set's iteration order; dual stack (c43_order_independent_dual: both families after any dual-stack history); c43_order_independent: after ANY history of pool, block, node and workload updates (block keys "
          "never overlapping) the route set held downstream is the function of the final datastore state (invariant: no stale "
          "routes + trie / node table / allPools / blockToRoutes / workloadIDToCIDRs are images of the datastore state); the "
          "originally pinned code is refuted with replayed witnesses (fixed in /repo by b294575).  Correspondence run of model "
